@@ -4,6 +4,7 @@ import (
 	"encoding/json"
 	"fmt"
 	"net/url"
+	"os"
 	"path"
 	"sort"
 	"strings"
@@ -22,7 +23,7 @@ type c11 struct{}
 func init() {
 	register(c11{})
 	expectedProbes["C11"] = []string{"spelling:relative-to-cwd", "spelling:plain-path", "spelling:file-one-slash", "spelling:scheme-case", "spelling:dot-segments", "spelling:double-slash", "spelling:fragment",
-		"spelling:file-query", "root:http", "root:file", "external-document-requested", "entry:ExpandSpec", "entry:ExpandSchemaWithBasePath", "entry:ResolveRefWithBase"}
+		"spelling:file-query", "spelling:other-working-directory", "root:http", "root:file", "external-document-requested", "entry:ExpandSpec", "entry:ExpandSchemaWithBasePath", "entry:ResolveRefWithBase"}
 }
 
 func (c11) ID() string { return "C11" }
@@ -181,6 +182,15 @@ func (c11) Gen(r *sim.RNG, tier string, idx int) *Scenario {
 		s, _ := respell(r, w.Root)
 		sc.Spellings = append(sc.Spellings, s)
 	}
+	if strings.HasPrefix(w.Root, "file://"+gen.Prefix+"/api/") {
+		// the same file seen from other working directories, in the same process
+		rel := strings.TrimPrefix(w.Root, "file://"+gen.Prefix+"/api/")
+		for _, d := range [][2]string{{gen.Prefix + "/lib", "../api/" + rel}, {gen.Prefix + "/api/sub", "../" + rel}, {gen.Prefix, "api/" + rel}} {
+			if r.Bool(0.5) {
+				sc.Spellings = append(sc.Spellings, "cwd="+d[0]+"|"+d[1])
+			}
+		}
+	}
 	entry := []string{"ExpandSpec", "ExpandSpec", "ExpandSchemaWithBasePath", "ResolveRefWithBase"}[r.Intn(4)]
 	op := Op{Entry: entry, Opts: Opts{Absolute: r.Bool(0.3), Skip: r.Bool(0.2)}}
 	els := Elements(w)
@@ -286,7 +296,22 @@ func (c11) Run(sc *Scenario) *Verdict {
 	for si, sp := range sc.Spellings {
 		o := op
 		o.Base = sp
+		if strings.HasPrefix(sp, "cwd=") {
+			// "cwd=<dir>|<spelling>": the spelling is relative to another working directory (seam S6)
+			parts := strings.SplitN(strings.TrimPrefix(sp, "cwd="), "|", 2)
+			if len(parts) != 2 || os.Chdir(parts[0]) != nil {
+				v.Inconclusive = "harness: cannot change to the simulated directory " + parts[0]
+				return v
+			}
+			o.Base = parts[1]
+			v.probe("spelling:other-working-directory")
+		}
 		res := ExecOp(o, &Env{World: w, Store: store, OrderKey: sc.OrderKeys[0], Budget: StepBudgetDefault})
+		if strings.HasPrefix(sp, "cwd=") {
+			if err := os.Chdir(gen.RootDir); err != nil {
+				panic(err)
+			}
+		}
 		v.Steps += res.Out.Steps
 		v.addFaults(res.Log)
 		if res.Out.Panic != "" {
@@ -297,7 +322,7 @@ func (c11) Run(sc *Scenario) *Verdict {
 			return v.fail("panic", "spelling %q: %s\n%s", sp, res.Out.Panic, res.Out.Stack)
 		}
 		v.Evals++
-		for _, k := range spellingKinds(w.Root, sp) {
+		for _, k := range spellingKinds(w.Root, o.Base) {
 			v.probe("spelling:" + k)
 			kindsUsed[k] = true
 		}
@@ -312,6 +337,9 @@ func (c11) Run(sc *Scenario) *Verdict {
 		}
 		sorted := append([]string{}, reqs...)
 		sort.Strings(sorted)
+		if !res.OptsSame {
+			return v.fail("options-modified", "spelling %q: %s", sp, res.OptsDiff)
+		}
 		if si == 0 {
 			base, baseReqs = res, sorted
 			continue
@@ -424,7 +452,11 @@ func (c12) Gen(r *sim.RNG, tier string, idx int) *Scenario {
 	sc := &Scenario{Prop: "C12"}
 	if r.Intn(8) == 0 {
 		// (a) world run
-		w := genExpandScenario("C12", r, tier, 1<<30)
+		widx := 1 << 30
+		if r.Bool(0.5) {
+			widx = gen.SmallCount + r.Intn(gen.ChainCount) // a systematic element chain
+		}
+		w := genExpandScenario("C12", r, tier, widx)
 		w.Mix = "world"
 		return w
 	}
